@@ -73,8 +73,11 @@ impl SenderModel {
             ev.push(Ev::PollCapacity(s));
             ev.push(Ev::End(s));
             ev.push(Ev::Reset(s));
-            if !quick {
+            // (quick: the handles of stream 0 only)
+            if !quick || s == 0 {
                 ev.push(Ev::DropStream(s));
+            }
+            if !quick {
                 ev.push(Ev::PeerRst(s));
             }
         }
@@ -275,6 +278,30 @@ impl Model for SenderModel {
                 v.push(("C16.capacity-exceeds-stream-window".into(), "stream".into(), format!("stream {}: capacity() = {} with {} octets still queued, but the peer's stream window leaves {}", st.sid, cap, queued, credit)));
             }
         }
+        // conservation inside the endpoint (snapshot hook): the part of the connection window that is not available for
+        // assignment is exactly what the streams still in the store hold as assigned, unused capacity - capacity that
+        // belongs to nobody can never reach a waiting stream (visible also where capacity() is clipped by the send buffer)
+        if let Conn::Client(c) = &t.conn {
+            let snap = c.verif_snapshot();
+            if let Some(p) = snap.send.find("prioritize: Prioritize") {
+                let pr = &snap.send[p..];
+                if let (Some(ws), Some(av)) = (crate::c19::num_after(pr, "window_size: Window("), crate::c19::num_after(pr, "available: Window(")) {
+                    let mut held: i64 = 0;
+                    for st in &snap.streams {
+                        if let Some(q) = st.find("send_flow: FlowControl") {
+                            let a = crate::c19::num_after(&st[q..], "available: Window(").unwrap_or(0).max(0);
+                            held += a;
+                        }
+                    }
+                    if std::env::var("VERIF_C16_DEBUG").is_ok() {
+                        eprintln!("C16 debug: ws={} av={} held={} streams={:?}", ws, av, held, snap.streams.iter().map(|x| x.chars().take(400).collect::<String>()).collect::<Vec<_>>());
+                    }
+                    if ws - av != held && ws >= 0 {
+                        v.push(("C16.assigned-capacity-lost".into(), if ws - av > held { "leaked".into() } else { "double".into() }, format!("{} octets of the connection send window ({} of {}) are marked as assigned to streams, but the streams in the store hold {} octets of assigned capacity", ws - av, ws - av, ws, held)));
+                    }
+                }
+            }
+        }
         let caps: i64 = w.streams.iter().filter(|s| !s.reset && !s.peer_reset).filter_map(|s| s.ss.as_ref().map(|x| x.capacity() as i64)).sum();
         if caps > 0 && caps > w.acct.conn_credit.max(0) {
             v.push(("C16.capacity-exceeds-connection-window".into(), "conn".into(), format!("capacities of all streams add up to {} but the peer's connection window leaves {} (assigned + queued {})", caps, w.acct.conn_credit, total)));
@@ -291,6 +318,21 @@ impl Model for SenderModel {
         t.drive(300);
         t.catch_up();
         w.acct.update(&t.mon);
+        // D: at quiescence a stream that can send no more (closed, reset) and has nothing buffered does not sit on assigned
+        // capacity - nobody else could get it (before the connection has run, a stream scheduled for reset may hold some)
+        if let Conn::Client(c) = &t.conn {
+            let snap = c.verif_snapshot();
+            for st in &snap.streams {
+                if let Some(q) = st.find("send_flow: FlowControl") {
+                    let a = crate::c19::num_after(&st[q..], "available: Window(").unwrap_or(0).max(0);
+                    let closed = st.contains("state: Closed(");
+                    let buffered = crate::c19::num_after(st, "buffered_send_data: ").unwrap_or(0);
+                    if closed && a > buffered {
+                        v.push(("C16.assigned-capacity-lost".into(), "closed-stream".into(), format!("at quiescence a closed stream still holds {} octets of assigned connection window ({} buffered): {}", a, buffered, st.chars().take(140).collect::<String>())));
+                    }
+                }
+            }
+        }
         // C: no pending poll_capacity becomes ready on a forced poll (lost wakeup); ended / reset streams have been woken
         for st in w.streams.iter_mut() {
             if !st.waiting || st.ss.is_none() {
